@@ -109,4 +109,32 @@ PROPS = {
         assumptions=ENC,
         trusted_base=["docutils node model (contracts/assumed_docutils.py)"],
     ),
+    "C16": dict(
+        level="exploration",
+        contracts=[],
+        harness=True,
+        explanation=(
+            "BOUNDED ONLY (no obligation discharged yet for parsers/parse_html.py): totality and tree consistency "
+            "(parent pointers, each element once, walk = all elements) of tokenize_html on all short strings over a "
+            "markup alphabet and random markup soup; exact round trip, strip/deepcopy purity and result, and find() vs "
+            "an independent pre-order filter on grammar-generated well-formed HTML."
+        ),
+        assumptions=["CPython 3.12.1 html.parser (event stream)"],
+        trusted_base=[],
+        technique="bounded run-time stand-in (exhaustive small strings + grammar generation) - no contract discharged for this module yet",
+    ),
+    "C18": dict(
+        level="exploration",
+        contracts=[],
+        harness=True,
+        explanation=(
+            "BOUNDED ONLY so far: load() against sphinx.util.inventory.InventoryFile (8.2.3) on the same generated bytes "
+            "(v1 and v2, names with spaces and non-ASCII, '$' locations, py:module duplicates, malformed lines) and "
+            "independence of the result from the read schedule (all single split points for small files, random and "
+            "byte-wise schedules otherwise)."
+        ),
+        assumptions=["zlib streaming decompression = one-shot decompression (stdlib)"],
+        trusted_base=["Sphinx 8.2.3 inventory loader (oracle)"],
+        technique="bounded differential stand-in against Sphinx's loader + enumeration of read schedules - no contract discharged for this module yet",
+    ),
 }
